@@ -292,6 +292,8 @@ impl Worker for W {
                 let text = got.short();
                 sg["cause"] = json!(if text.contains("UndefinedBinding(\"std.") || text.contains("Could not find type 'std.") {
                     "std-type-not-yet-bound-during-parallel-import"
+                } else if text.contains("exit scope above current") || text.contains("Expected extern") || text.contains("Expected closure state") {
+                    "frame-stack-mismatch"
                 } else if text.contains("PoisonError") {
                     "poisoned-lock"
                 } else {
